@@ -320,3 +320,84 @@ Proof.
   unfold rle_same. intros H. apply rle_eqb_eq in H.
   rewrite <- (rle_norm_expand l1), <- (rle_norm_expand l2), H. reflexivity.
 Qed.
+
+(* completeness of the comparison: encodings of the same decisions are always found "same"
+   (the checker cannot raise an alarm because of the encoding) *)
+Fixpoint canon (l : list (bool * N)) : Prop :=
+  match l with
+  | [] => True
+  | (x, n) :: r =>
+      n <> 0%N /\ match r with [] => True | (y, _) :: _ => x <> y end /\ canon r
+  end.
+
+Lemma rle_norm_canon l : canon (rle_norm l).
+Proof.
+  induction l as [|[x n] l IH]; [exact I|].
+  cbn [rle_norm]. destruct (n =? 0)%N eqn:E0; [exact IH|]. apply N.eqb_neq in E0.
+  destruct (rle_norm l) as [|[y m] r'] eqn:El.
+  - cbn. auto.
+  - destruct IH as (Hm & Hh & Hr). destruct (Bool.eqb x y) eqn:Exy.
+    + apply eqb_prop in Exy. subst y. cbn [canon]. repeat split; [lia|exact Hh|exact Hr].
+    + apply eqb_false_iff in Exy. cbn [canon]. repeat split; auto.
+Qed.
+
+Lemma expandN_cons x n r : expandN ((x, n) :: r) = repeat x (N.to_nat n) ++ expandN r.
+Proof. reflexivity. Qed.
+
+(* a canonical encoding is determined by the list it denotes *)
+Lemma repeat_app_split (x : bool) : forall n m A B,
+  (match A with [] => True | a :: _ => a <> x end) ->
+  (match B with [] => True | b :: _ => b <> x end) ->
+  repeat x n ++ A = repeat x m ++ B -> n = m /\ A = B.
+Proof.
+  induction n as [|n IH]; intros [|m] A B HA HB E; cbn [repeat app] in E.
+  - auto.
+  - subst A. cbn in HA. congruence.
+  - subst B. cbn in HB. congruence.
+  - inversion E as [E']. destruct (IH m A B HA HB E') as [-> ->]. auto.
+Qed.
+
+Lemma canon_head l x :
+  canon l -> (match l with [] => True | (y, _) :: _ => x <> y end) ->
+  match expandN l with [] => True | a :: _ => a <> x end.
+Proof.
+  destruct l as [|[y m] r]; [intros; exact I|].
+  intros (Hm & _ & _) Hxy. rewrite expandN_cons.
+  destruct (N.to_nat m) eqn:Em; [lia|]. cbn [repeat app]. congruence.
+Qed.
+
+Lemma canon_unique l1 : forall l2,
+  canon l1 -> canon l2 -> expandN l1 = expandN l2 -> l1 = l2.
+Proof.
+  induction l1 as [|[x n] r1 IH]; intros [|[y m] r2] H1 H2 E.
+  - reflexivity.
+  - destruct H2 as (Hm & _ & _). rewrite expandN_cons in E.
+    destruct (N.to_nat m) eqn:Em; [lia|]. cbn in E. discriminate.
+  - destruct H1 as (Hn & _ & _). rewrite expandN_cons in E.
+    destruct (N.to_nat n) eqn:En; [lia|]. cbn in E. discriminate.
+  - destruct H1 as (Hn & Hh1 & Hc1). destruct H2 as (Hm & Hh2 & Hc2).
+    rewrite !expandN_cons in E.
+    assert (x = y).
+    { destruct (N.to_nat n) eqn:En; [lia|]. destruct (N.to_nat m) eqn:Em; [lia|].
+      cbn in E. congruence. }
+    subst y.
+    apply repeat_app_split in E.
+    + destruct E as [En Er]. f_equal; [f_equal; lia|]. apply IH; assumption.
+    + apply canon_head; assumption.
+    + apply canon_head; assumption.
+Qed.
+
+Lemma rle_eqb_refl l : rle_eqb l l = true.
+Proof.
+  induction l as [|[x n] l IH]; [reflexivity|]. cbn [rle_eqb]. unfold run_eqb. cbn [fst snd].
+  rewrite eqb_reflx, N.eqb_refl, IH. reflexivity.
+Qed.
+
+Theorem rle_same_complete l1 l2 : expandN l1 = expandN l2 -> rle_same l1 l2 = true.
+Proof.
+  intros E. unfold rle_same.
+  rewrite (canon_unique (rle_norm l1) (rle_norm l2)); [apply rle_eqb_refl| | |].
+  - apply rle_norm_canon.
+  - apply rle_norm_canon.
+  - rewrite !rle_norm_expand. exact E.
+Qed.
